@@ -18,7 +18,14 @@ CHECKS = {
              note=TB + "fstream flush trusted; which sends reach the capture (call sites in send_packet/send_to_impl) is validated by simulation-level scenarios, not proved", ref="§5 C19",
              tech="Lean 4 proof: encoder/decoder round trip; byte-exact differential correspondence"),
 }
+ # (more entries are added below)
 NA = {}
+CHECKS["C09"] = dict(text="Lean theorems over every well-timed history of the open queue system (arbitrary arrivals incl. re-entrant ones, callback instants constrained only by what C02/C03 guarantee): FIFO, stamp = arrival + latency, departure recurrence leave = max(prev, arrive+latency) + ser(size) (bandwidth 0: +0), prev chain, minimum crossing time, monotone departures, rate bound between consecutive departures, work conservation (a backlogged queue always has its next callback pending); exact correspondence of the composed kernel+queue model with real sim::queue objects between probes; recurrence re-checked with exact rationals (+-1 ns) on implementation traces",
+    note=TB + "serialisation time abstract (ser >= 0) in the theorems; the code's double rounding is validated numerically, not proved; route-level lower bounds are corollaries per hop and are not separately stated for TCP/UDP end-to-end delays", ref="§5 C09",
+    tech="Lean 4 proof: open-system invariant (assume-guarantee on C02/C03); model/implementation correspondence")
+CHECKS["C10"] = dict(text="Lean theorems: byte account = sum of queued sizes = accepted - forwarded; drop iff droppable and capacity>0 and held+size>capacity (mechanism function and logged flag for every arrival of every history); control packets and capacity 0 never drop; conservation (every arrival forwarded xor dropped xor still queued, FIFO identity); drop callback exactly once, at the drop instant, with the packet intact; correspondence and trace-level statement as C09",
+    note=TB + "'intact' covers payload size/type/sequence/overhead (the callback member itself is moved out by design)", ref="§5 C10",
+    tech="Lean 4 proof: open-system invariant; model/implementation correspondence")
 
 def main():
     props = [json.loads(l)["id"] for l in open(os.path.join(ROOT, "properties.jsonl"))]
